@@ -8,6 +8,7 @@ require (
 )
 
 require (
+	github.com/yuin/goldmark v1.4.13
 	golang.org/x/image v0.18.0 // indirect
 	golang.org/x/net v0.20.0 // indirect
 )
